@@ -42,6 +42,7 @@ func (c19) Thresholds(tier string) map[string]int64 {
 		"round_places-within-1-ulp-of-bound": 1,
 		"nested-call-arguments":              100000,
 		"string-of-a-string":                 30000,
+		"literal-argument-calls":             50000,
 	}
 	for _, cl := range c19Classes {
 		th["class:"+cl] = 1500
@@ -53,7 +54,7 @@ func (c19) Thresholds(tier string) map[string]int64 {
 }
 
 func (c19) Rule() string {
-	return "case = 24 finite doubles x with |x| < 2^52 drawn from the classes {" + strings.Join(c19Classes, ", ") + "}, pre-loaded into the variable store (no literal printing involved), and one script that captures, through a raw host function, the typed results of floor, ceil, inc, dec, integer, decimal, round, round_places(x,n) for a PRNG n in 0..8, number(string(x)), number(x), string(string(x)), bool(string(b)), bool(b) for each of them, round_places again with arguments that are themselves calls (round_places(x, integer(p)), round_places(number(string(x)), number(string(n)))), and string(s), string(string(s)) for 6 strings from a pool with brackets, backslashes, quotes, blanks, line breaks, multi-byte and number/boolean look-alikes (must come back unchanged); plus two scripts converting a string that is neither a number nor a boolean (must be an error). Oracle: the inequalities of the property evaluated exactly in rational arithmetic (math/big; a float64 comparison would accept round(0.49999999999999994) = 1, because 1 - x rounds to 0.5) (integrality, floor<=x<floor+1, ceil-1<x<=ceil, inc = least integer > x, dec = greatest integer < x, integer truncates toward zero, integer+decimal == x, |round-x|<=0.5, number(string(x)) == x numerically, identities); round_places: |r-x| <= 0.5*10^-n + 2 ulp(x), computed with math/big rationals. Non-trivial: x is non-integral, a half-way case, adjacent to an integer, or a signed zero. Distinct by the bit pattern of x."
+	return "case = 24 finite doubles x with |x| < 2^52 drawn from the classes {" + strings.Join(c19Classes, ", ") + "}, pre-loaded into the variable store (no literal printing involved), and one script that captures, through a raw host function, the typed results of floor, ceil, inc, dec, integer, decimal, round, round_places(x,n) for a PRNG n in 0..8, number(string(x)), number(x), string(string(x)), bool(string(b)), bool(b) for each of them, round_places again with arguments that are themselves calls (round_places(x, integer(p)), round_places(number(string(x)), number(string(n)))), and string(s), string(string(s)) for 6 strings from a pool with brackets, backslashes, quotes, blanks, line breaks, multi-byte and number/boolean look-alikes (must come back unchanged); the node is run twice by the same runner through a jump, and 11 calls with literal arguments (inc(2.5), dec(7), ...) must give the same, correct result in both passes; plus two scripts converting a string that is neither a number nor a boolean (must be an error). Oracle: the inequalities of the property evaluated exactly in rational arithmetic (math/big; a float64 comparison would accept round(0.49999999999999994) = 1, because 1 - x rounds to 0.5) (integrality, floor<=x<floor+1, ceil-1<x<=ceil, inc = least integer > x, dec = greatest integer < x, integer truncates toward zero, integer+decimal == x, |round-x|<=0.5, number(string(x)) == x numerically, identities); round_places: |r-x| <= 0.5*10^-n + 2 ulp(x), computed with math/big rationals. Non-trivial: x is non-integral, a half-way case, adjacent to an integer, or a signed zero. Distinct by the bit pattern of x."
 }
 
 func (c19) Assumptions() []string {
@@ -189,6 +190,23 @@ func (p c19) Run(c *core.Ctx) {
 			&hast.Stmt{K: hast.SCall, X: hast.Call("cap", hast.Num(fmt.Sprint(10000+j)), hast.Call("string", hast.Var(fmt.Sprintf("s%d", j))))},
 			&hast.Stmt{K: hast.SCall, X: hast.Call("cap", hast.Num(fmt.Sprint(20000+j)), hast.Call("string", hast.Call("string", hast.Var(fmt.Sprintf("s%d", j)))))})
 	}
+	// the built-ins applied directly to literals written in the script, and the whole node run twice by the
+	// same runner (the second pass must give what the first gave)
+	type litCall struct {
+		f, lit string
+		want   float64
+	}
+	lits := []litCall{{"inc", "2.5", 3}, {"dec", "2.5", 2}, {"floor", "2.5", 2}, {"ceil", "2.5", 3}, {"integer", "2.5", 2}, {"decimal", "2.5", 0.5},
+		{"inc", "7", 8}, {"dec", "7", 6}, {"round", "7.25", 7}, {"inc", "0", 1}, {"dec", "0", -1}}
+	for k, lc := range lits {
+		idExpr := hast.Bin("+", hast.Num(fmt.Sprint(30000+k)), hast.Bin("*", hast.Var("pass"), hast.Num("1000")))
+		body = append(body, &hast.Stmt{K: hast.SCall, X: hast.Call("cap", idExpr, hast.Call(lc.f, hast.Num(lc.lit)))})
+	}
+	st.HostSet("pass", model.N(0))
+	body = append(body, &hast.Stmt{K: hast.SIf, Clauses: []*hast.Clause{{
+		Cond: hast.Bin("==", hast.Var("pass"), hast.Num("0")),
+		Body: []*hast.Stmt{{K: hast.SSet, Var: "pass", Op: "=", X: hast.Num("1")}, {K: hast.SJump, Target: "Start"}},
+	}}})
 	body = append(body, &hast.Stmt{K: hast.SLine, Parts: []hast.Part{hast.Lit("done")}})
 	prog := &hast.Program{Readers: 1, Nodes: []*hast.Node{{Title: "Start", Body: body}}}
 	scripts := hast.Render(prog, hast.L0())
@@ -221,6 +239,10 @@ func (p c19) Run(c *core.Ctx) {
 			v, ok := got[base+k]
 			if !ok || v.T != hast.TNum {
 				bad(i, f, v, "result is not a number")
+				return 0, false
+			}
+			if math.IsNaN(v.N) || math.IsInf(v.N, 0) {
+				bad(i, f, v, "result is not a finite number although x is finite and below 2^52")
 				return 0, false
 			}
 			c.Feature("contract-checks")
@@ -300,6 +322,18 @@ func (p c19) Run(c *core.Ctx) {
 			c.Feature("contract-checks")
 			if v.T != hast.TBool || v.B != wantB {
 				bad(i, f, v, fmt.Sprintf("need %v", wantB))
+			}
+		}
+	}
+	for k, lc := range lits {
+		for pass := 0; pass < 2; pass++ {
+			v, ok := got[30000+k+pass*1000]
+			c.Feature("contract-checks")
+			c.Feature("literal-argument-calls")
+			if !ok || v.T != hast.TNum || v.N != lc.want {
+				c.Violate(fmt.Sprintf("%s(%s) written with a literal argument violates its contract", lc.f, lc.lit), map[string]any{
+					"pass_of_the_node": pass + 1, "result": v.String(), "want": lc.want})
+				break
 			}
 		}
 	}
